@@ -4,7 +4,7 @@ import vlib
 from props import common
 
 THM = "NextestModel.Thm.C05"
-GEN = []
+GEN = ["tables"]
 TRUSTED = ["model: Model/Syntax (parser), Model/Expr (compile, evaluation, package sets), Model/Glob (glob semantics, documented subset)",
            "regex truth and validity are inputs (asked from the `regex` crate directly, not through nextest)",
            "guppy graph construction; the model's graph is the generator's own adjacency list"]
